@@ -204,8 +204,20 @@ def tagobj(t, V):
     return V[t]
 
 
-def ptags(vec, V):
-    return [data.PredictedTag(tag=V[j], score=s) for j, s in enumerate(vec) if s > 0]
+_NOT_AS_GIVEN = []
+
+
+def ptags(vec, V, dense=False):
+    """Predicted tags of a score vector: sparse (only the positive scores) or dense (explicit 0.0 scores as well, what a model
+    head emits).  The objects must hold the scores they were given; a difference is reported by run_case (inputs_as_given)."""
+    out = []
+    for j, s in enumerate(vec):
+        if s > 0 or dense:
+            pt = data.PredictedTag(tag=V[j], score=s)
+            if pt.score != s or pt.tag != V[j]:
+                _NOT_AS_GIVEN.append([s, pt.score])
+            out.append(pt)
+    return out
 
 
 def box(j):
@@ -223,7 +235,7 @@ def build(case):
         if clip_level:
             (truth, vec), = items
             cas.append(data.ClipAnnotation(uuid=U("ca%d" % ci), clip=clip, tags=[tagobj(t, V) for t in truth]))
-            cps.append(data.ClipPrediction(uuid=U("cp%d" % ci), clip=clip, tags=ptags(vec, V)))
+            cps.append(data.ClipPrediction(uuid=U("cp%d" % ci), clip=clip, tags=ptags(vec, V, dense=ci % 2 == 1)))
             continue
         seas, seps = [], []
         for j, (truth, vec) in enumerate(items):
@@ -234,7 +246,7 @@ def build(case):
             else:
                 se_p = se
             seas.append(data.SoundEventAnnotation(uuid=U("a%d.%d" % (ci, j)), sound_event=se, tags=[tagobj(t, V) for t in truth]))
-            seps.append(data.SoundEventPrediction(uuid=U("p%d.%d" % (ci, j)), sound_event=se_p, tags=ptags(vec, V)))
+            seps.append(data.SoundEventPrediction(uuid=U("p%d.%d" % (ci, j)), sound_event=se_p, tags=ptags(vec, V, dense=(ci + j) % 2 == 1)))
         if ci == 0 and extra[0]:
             se = data.SoundEvent(uuid=U("sex%d" % ci), recording=REC, geometry=box(7))
             seps.append(data.SoundEventPrediction(uuid=U("px%d" % ci), sound_event=se, tags=ptags([0.5] + [0.25] * (k - 1), V)))
@@ -409,8 +421,13 @@ def run_case(case):
     out = Out(case)
     task, k = case["task"], case["k"]
     fn = TASKS[task]
+    del _NOT_AS_GIVEN[:]
     V, cas, cps = build(case)
     cls = {"task": task}
+    if _NOT_AS_GIVEN:
+        out.fail("inputs_as_given", _NOT_AS_GIVEN[:3], "a predicted tag holds the score it was built with", dict(cls, what="PredictedTag.score"))
+    else:
+        out.ok("inputs_as_given")
     n_items = sum(len(c) for c in case["clips"]) + sum(case.get("extra") or [0, 0])
     if task in ("clip_classification", "clip_multilabel_classification"):
         n_items = len(case["clips"])
